@@ -23,10 +23,14 @@ Record an_state := mk_an_state {
   a_from : N;           (* per-datagram input, set before each datagram: the sender's IP (its last octet; never 0) *)
   a_ltp : bool;         (* m_output_ports[0].merge_mode == ARTNET_MERGE_LTP (port 1 is HTP) *)
   a_s0 : option (N * dbuf) * option (N * dbuf);   (* m_output_ports[0].sources[0..1]: None = wildcard address *)
-  a_s1 : option (N * dbuf) * option (N * dbuf)    (* m_output_ports[1].sources[0..1] *)
+  a_s1 : option (N * dbuf) * option (N * dbuf);   (* m_output_ports[1].sources[0..1] *)
+  a_pend : option (list N * list N * N * N * N)
+     (* m_input_ports[0]->pending_request: source UID, destination UID (6 bytes each), ParamId, SubDevice,
+        CommandClass.  The completion callback queues the same request again (what QueueingRDMController does with
+        its next request), so a matched response leaves it pending. *)
 }.
 Definition upd st (buf : dbuf) (uids : list N) (sub roc : bool) (buf2 : dbuf) s0 s1 :=
-  mk_an_state (a_net st) (a_oa st) (a_ia st) buf uids sub roc (a_ob st) buf2 (a_from st) (a_ltp st) s0 s1.
+  mk_an_state (a_net st) (a_oa st) (a_ia st) buf uids sub roc (a_ob st) buf2 (a_from st) (a_ltp st) s0 s1 (a_pend st).
 Definition set_buf st b := upd st b (a_uids st) (a_sub st) (a_roc st) (a_buf2 st) (a_s0 st) (a_s1 st).
 Definition set_buf2 st b := upd st (a_buf st) (a_uids st) (a_sub st) (a_roc st) b (a_s0 st) (a_s1 st).
 Definition set_uids st u := upd st (a_buf st) u (a_sub st) (a_roc st) (a_buf2 st) (a_s0 st) (a_s1 st).
@@ -34,7 +38,7 @@ Definition set_sub st x := upd st (a_buf st) (a_uids st) x (a_roc st) (a_buf2 st
 Definition set_roc st r := upd st (a_buf st) (a_uids st) (a_sub st) r (a_buf2 st) (a_s0 st) (a_s1 st).
 Definition set_from st f :=
   mk_an_state (a_net st) (a_oa st) (a_ia st) (a_buf st) (a_uids st) (a_sub st) (a_roc st) (a_ob st) (a_buf2 st) f
-              (a_ltp st) (a_s0 st) (a_s1 st).
+              (a_ltp st) (a_s0 st) (a_s1 st) (a_pend st).
 
 (* UpdatePortFromSource(port, source) for a port whose tracked sources are `srcs`, from address `from` with
    buffer `nb` (no source ever times out: the harness's clock does not advance).  Result: None = "No room at the
@@ -72,7 +76,8 @@ Inductive an_event :=
 | EvDisc (port : N)         (* on_discover ran *)
 | EvFlush (port : N)        (* on_flush ran *)
 | EvRdm (port : N) (req : list N)  (* on_rdm_request ran; req = the request's header fields from destination_uid on + param data *)
-| EvTod (uids : list N).    (* the TOD callback ran with these UIDs *)
+| EvTod (uids : list N)     (* the TOD callback ran with these UIDs *)
+| EvResp (resp : list N).   (* the pending request's callback ran with this response (fields from destination_uid on + param data) *)
 
 Definition an_out := (an_state * list an_event)%type.
 Definition ev_if (c : bool) (e : an_event) : list an_event := if c then [e] else [].
@@ -108,7 +113,8 @@ Definition uid_add_all (us : list N) (l : list N) : list N := fold_left (fun acc
    as a function of the rdm_length bytes at packet.data *)
 Definition gb (d : list N) (i : N) : N := match rd d i with Some v => v | None => 0 end.
 
-Definition rdm_inflate (d : list N) : option (list N) :=
+(* RDMCommand::VerifyData(data, length, &header) == RDM_COMPLETED_OK; gives the param data length *)
+Definition rdm_verify (d : list N) : option N :=
   let length := len d in
   if length <? RDMH_SIZE then None
   else if negb (gb d RDMH_sub_start_code =? RDM_SUB_START_CODE) then None
@@ -122,12 +128,48 @@ Definition rdm_inflate (d : list N) : option (list N) :=
       if negb (actual =? cs) then None
       else
         let pdl := gb d RDMH_param_data_length in
-        if length - RDMH_SIZE - 2 <? pdl then None
-        else
-          let cc := gb d RDMH_command_class in
-          if (cc =? RDM_CC_DISCOVER) || (cc =? RDM_CC_GET) || (cc =? RDM_CC_SET)
-          then Some (slice d RDMH_destination_uid (RDMH_SIZE - RDMH_destination_uid + pdl))
-          else None.
+        if length - RDMH_SIZE - 2 <? pdl then None else Some pdl.
+
+(* RDMRequest::InflateFromData *)
+Definition rdm_inflate (d : list N) : option (list N) :=
+  match rdm_verify d with
+  | None => None
+  | Some pdl =>
+    let cc := gb d RDMH_command_class in
+    if (cc =? RDM_CC_DISCOVER) || (cc =? RDM_CC_GET) || (cc =? RDM_CC_SET)
+    then Some (slice d RDMH_destination_uid (RDMH_SIZE - RDMH_destination_uid + pdl))
+    else None
+  end.
+
+(* RDMReply::FromFrame(RDMFrame(packet.data, rdm_length, prepend start code)) -> RDMResponse::InflateFromData(d, len d,
+   &status, NULL): verification, response type <= ACK_OVERFLOW, one of the three response command classes *)
+Definition rdm_resp_inflate (d : list N) : option (list N) :=
+  match rdm_verify d with
+  | None => None
+  | Some pdl =>
+    let cc := gb d RDMH_command_class in
+    if RDM_ACK_OVERFLOW <? gb d RDMH_port_id then None
+    else if (cc =? RDM_CC_DISCOVER_RESPONSE) || (cc =? RDM_CC_GET_RESPONSE) || (cc =? RDM_CC_SET_RESPONSE)
+    then Some (slice d RDMH_destination_uid (RDMH_SIZE - RDMH_destination_uid + pdl))
+    else None
+  end.
+Fixpoint list_eqbN (a b : list N) : bool :=
+  match a, b with [], [] => true | x :: a', y :: b' => (x =? y) && list_eqbN a' b' | _, _ => false end.
+(* HandleRDMResponse(port, frame, source): does the response belong to the pending request? (the IP test holds:
+   every ArtRdm comes from the address the TOD came from, or the destination is the broadcast address) *)
+Definition resp_matches (pend : list N * list N * N * N * N) (d : list N) : bool :=
+  let '(rsrc, rdst, rpid, rsub, rcc) := pend in
+  let dst := slice d RDMH_destination_uid RDM_UID_SIZE in
+  let src := slice d RDMH_source_uid RDM_UID_SIZE in
+  let pid := join16 (gb d RDMH_param_id) (gb d (RDMH_param_id + 1)) in
+  let sub := join16 (gb d RDMH_sub_device) (gb d (RDMH_sub_device + 1)) in
+  let cc := gb d RDMH_command_class in
+  let queued := rpid =? RDM_PID_QUEUED_MESSAGE in
+  list_eqbN rsrc dst && list_eqbN rdst src
+  && (queued || (rpid =? pid))
+  && (queued || (rsub =? RDM_ALL_SUBDEVICES) || (rsub =? sub))
+  && negb ((rcc =? RDM_CC_GET) && negb (cc =? RDM_CC_GET_RESPONSE) && negb queued)
+  && negb ((rcc =? RDM_CC_SET) && negb (cc =? RDM_CC_SET_RESPONSE)).
 
 (* ---------------------------------------------------------------- the handlers; H = offset of packet.data,
    psz = packet_size - header_size as passed by HandlePacket *)
@@ -260,12 +302,22 @@ Definition handle_rdm : prog an_out :=
              Read (H + AN_RDM_address) (fun a =>
                (* InflateFromData(packet.data, rdm_length) / RDMFrame(packet.data, rdm_length) *)
                ReadBlk (H + AN_RDM_data) rdm_length (fun d =>
-                 if (a_oa st =? a) || (a_ob st =? a) then
-                   match rdm_inflate d with
-                   | Some r => Ret (st, ev_if (a_oa st =? a) (EvRdm 0 r) ++ ev_if (a_ob st =? a) (EvRdm 1 r))
-                   | None => drop_
-                   end
-                 else drop_)))))).
+                 (* output ports (requests), then the enabled input port on that address (responses) *)
+                 let req_evs :=
+                   if (a_oa st =? a) || (a_ob st =? a) then
+                     match rdm_inflate d with
+                     | Some r => ev_if (a_oa st =? a) (EvRdm 0 r) ++ ev_if (a_ob st =? a) (EvRdm 1 r)
+                     | None => []
+                     end
+                   else [] in
+                 let resp_evs :=
+                   if a_ia st =? a then
+                     match rdm_resp_inflate d, a_pend st with
+                     | Some r, Some pend => if resp_matches pend d then [EvResp r] else []
+                     | _, _ => []
+                     end
+                   else [] in
+                 Ret (st, req_evs ++ resp_evs))))))).
 
 Definition handle_ipprogram : prog an_out :=
   if psz <? AN_IP_SIZE then drop_
@@ -355,7 +407,7 @@ Proof. intros Hn. unfold handle_todcontrol. an_unfold. repeat bstep. Qed.
 Lemma rdm_bounded n st : AN_HEADER_SIZE < n -> bounded n (handle_rdm n st).
 Proof.
   intros Hn. unfold handle_rdm. an_unfold. repeat bstep.
-  all: try (destruct (rdm_inflate _); constructor).
+  all: try constructor.
 Qed.
 
 Lemma ipprogram_bounded n st : AN_HEADER_SIZE < n -> bounded n (handle_ipprogram n st).
